@@ -31,7 +31,8 @@ def main():
   os.makedirs(out)
   try:
     subprocess.check_call(['git', '-C', '/repo', 'worktree', 'add', '--detach', '-q', wt])
-    subprocess.check_call(['git', '-C', wt, 'apply', '--3way', patch])
+    subprocess.check_call(['git', '-C', wt, 'apply', '--3way', patch],
+                          stdout=subprocess.DEVNULL, stderr=subprocess.DEVNULL)
     env = dict(os.environ, VERIF_REPO=wt, VERIF_OUT_DIR=out)
     results = {}
     for p in props:
